@@ -294,10 +294,20 @@ def main(argv=None):
             status = "violations"
     except (Machinery, tlc.TLCFailure) as ex:
         print("MACHINERY-FAILURE property=%s %s" % (pid, ex))
+        try:
+            with open(os.path.join(ROOT, ".scratch", "failures.log"), "a") as f:
+                f.write("==== %s %s tier=%s\n%s\n" % (time.strftime("%H:%M:%S"), pid, a.tier, str(ex)[:6000]))
+        except Exception:
+            pass
         status = "machinery failure: %s" % str(ex)[:400]
         rc = 2
     except Exception:
         traceback.print_exc()
+        try:
+            with open(os.path.join(ROOT, ".scratch", "failures.log"), "a") as f:
+                f.write("==== %s %s tier=%s\n%s\n" % (time.strftime("%H:%M:%S"), pid, a.tier, traceback.format_exc()[:6000]))
+        except Exception:
+            pass
         status = "machinery failure: unexpected exception"
         rc = 2
     finally:
